@@ -12,6 +12,17 @@ C = 'histories: BFS over operation sequences against a model of the global gener
 
 # id -> (engine, technique, level text, level note, design ref)
 CHECKS = {
+    'C02': ('rngmc', 'explicit-state exploration of ALL node visiting orders at every sweep (n! menu, states merged at sweep starts) + bounded-exhaustive enumeration for the deterministic routines',
+            'community_louvain (4 objectives), modularity_louvain_und/_dir/_und_sign, modularity_finetune_und/_dir/_und_sign, '
+            'modularity_probtune_und_sign on small graphs x gamma {1,1.25} x qtypes x initial partitions x hierarchy: for every reachable outcome the '
+            'labels are exactly 1..k and the returned q (every level) equals the modularity recomputed from its definition; modularity_und/_dir/'
+            '_und_sign on every graph n<=4 / digraph n<=3 x every set partition as kci.',
+            'trusted: double-loop reference modularity in bctmc/louvain.py; state keys as C01; known findings for modularity_louvain_dir are listed in known_findings.json', 'DESIGN.md section 4 C02'),
+    'C07': ('rngmc', 'explicit-state exploration of ALL visiting orders, two stages (outputs fed back as starts), reference modularity + bookkeeping state invariant',
+            'Same explorations as C02 for the seven deterministic-gain optimisers: Qref(returned) >= Qref(start) - 1e-10 for every reachable outcome, '
+            'hierarchical levels strictly increasing in true modularity, every distinct first-stage output fed back as ci and explored again; at '
+            'every sweep-start state the incremental node-to-module sums equal the sums recomputed from the labels.',
+            'trusted: as C02; state invariants depend on local names (skipped and counted if renamed)', 'DESIGN.md section 4 C07'),
     'C20': ('rngmc', 'exploration of ALL random-generator answers (every permutation / threshold outcome / repair choice) per parameter tuple',
             'For every parameter tuple of a small grid (makerandCIJ_und n<=4, makerandCIJ_dir n=3, makeringlatticeCIJ n=4..6, makeevenCIJ n=4, '
             'makefractalCIJ 2 levels: all 2^16 threshold outcomes, maketoeplitzCIJ n=3: all 2^9 outcomes per draw up to two draws, '
